@@ -150,7 +150,7 @@ theorem peek_refines [DecidableEq α] (cfg : Cfg) {b : LB α} {q : Q α} (hR : R
           · simp only [hcl, if_true]
             refine ⟨_, _, rfl, ⟨hR0.abs, hR0.len, hR0.mlen, hR0.shape, ?_, hR0.flags⟩, ?_⟩
             · intro _ c' cp' h
-              cases h; exact hc
+              cases h; rw [q.leadBytes_eq_flushedBytes hro]; exact hc
             · show Res.bytes _ = Res.bytes _
               rw [hfb, List.prefix_iff_eq_take.1 hc, List.take_take, Nat.min_eq_left hcl]
           · simp only [hcl, if_false]
@@ -160,7 +160,7 @@ theorem peek_refines [DecidableEq α] (cfg : Cfg) {b : LB α} {q : Q α} (hR : R
             rw [hp]
             refine ⟨_, _, rfl, ⟨hR0.abs, hR0.len, hR0.mlen, hR0.shape, ?_, hR0.flags⟩, ?_⟩
             · intro _ c' cp' h
-              cases h; exact List.take_prefix _ _
+              cases h; rw [q.leadBytes_eq_flushedBytes hro]; exact List.take_prefix _ _
             · show Res.bytes _ = Res.bytes _
               rw [hfb, List.take_take, Nat.min_eq_left (Nat.le_max_left _ _)]
         cases hcp : b.cachePeek with
@@ -171,7 +171,7 @@ theorem peek_refines [DecidableEq α] (cfg : Cfg) {b : LB α} {q : Q α} (hR : R
           · simp only [hlt2, if_true]
             exact key [] _ List.nil_prefix
           · simp only [hlt2, if_false]
-            exact key c cp (hR.cache hd c cp hcp)
+            exact key c cp (q.leadBytes_eq_flushedBytes hro ▸ hR.cache hd c cp hcp)
       · -- one node: the exposed flag of the read node is set
         rw [h4]
         simp only []
